@@ -44,6 +44,9 @@ class Adt:
         self.path, self.variant, self.vidx, self.xs, self.is_enum = path, variant, vidx, list(xs), is_enum
 
 
+ALIAS_DEBUG = bool(__import__('os').environ.get('SMTLINT_ALIAS_DEBUG'))
+
+
 class Ref:
     __slots__ = ('cell', 'path', 'mut')
 
@@ -600,6 +603,12 @@ class Interp:
             key = ('#elem', idx)
             if key in v.over:
                 return v.over[key]
+            if ALIAS_DEBUG:
+                for k in v.wr:
+                    if isinstance(k, tuple) and k[0] == '#elem' and k[1] != idx and not self.entails(st, T.mk_cmp('ne', k[1], idx)):
+                        import sys
+                        fr_ = st.frames[-1]
+                        sys.stderr.write('ALIAS? %s read %s after write %s in %s\n' % (T.show(v.term)[:40], T.show(idx)[:60], T.show(k[1])[:60], fr_.fn.path))
             val = self.sym_value(st, t, ety)
             v.over[key] = val
             return val
